@@ -27,7 +27,15 @@ RoundTrip(c) ==
   \cup (IF c.sym_in # c.sym_out THEN {"write-read-symmetry-flag"} ELSE {})
   \cup (IF (c.sym_in = 1) # Symmetric(c.M) THEN {"symmetry-flag"} ELSE {})
 
+\* GEO distances need cos / acos and are out of TLC's reach - except between two cities with the SAME coordinates:
+\* TSPLIB95 prescribes (int)(RRR * acos(0.5 * ((1 + q1) * q2 - (1 - q1) * q3)) + 1.0) with q1 = q2 = 1, i.e. acos(1) = 0
+\* and the distance 1 (not 0).
+GeoCoincident(c) ==
+  LET n == Len(c.pts)
+      bad == {p \in (1..n) \X (1..n) : p[1] # p[2] /\ c.pts[p[1]] = c.pts[p[2]] /\ c.loaded[p[1]][p[2]] # 1}
+  IN IF bad # {} THEN {"distance:GEO(coinciding-cities-are-1-apart)"} ELSE {}
 Coords(c) ==
+  IF c.ewt = "GEO" THEN GeoCoincident(c) ELSE
   LET n == Len(c.pts)
       bad == {p \in (1..n) \X (1..n) :
                 p[1] # p[2] /\ ~DistOK(c.ewt, c.loaded[p[1]][p[2]], SqDist(c.pts[p[1]], c.pts[p[2]]), c.sc)}
